@@ -49,6 +49,7 @@ type Case struct {
 	CloudFail []int     `json:"cloud_fail,omitempty"` // indexes of provider calls that fail cleanly
 	Lag       bool      `json:"lag,omitempty"`
 	FaultAt   *FaultAt  `json:"fault_at,omitempty"`
+	CrFail    []int     `json:"cr_fail,omitempty"` // indexes of custom-resource replica lookups that fail with an internal error
 	// NoNameReuse: a pod name is used by one incarnation only (deployment pods get random name suffixes)
 	NoNameReuse bool `json:"no_name_reuse,omitempty"`
 }
@@ -169,6 +170,7 @@ func NewExec(c *Case, rec *vcore.Rec, obs ...Observer) (*Exec, error) {
 		}
 		w.Cloud.failPlan = plan
 	}
+	w.CrFail = c.CrFail
 	for i := range c.WLs {
 		if !c.WLs[i].NoObject && c.WLs[i].Kind != "bare" {
 			w.SetWorkload(&c.WLs[i], c.WLs[i].Replicas)
